@@ -196,10 +196,30 @@ func sameSpec(g, w ech.ConfigSpec) bool {
 
 // interop: crypto/tls on both sides with a real key, id, name length and suite list of the case domain
 func interop(id uint8, nameLen int, suites []ech.CipherSuite, viaNewConfig bool) string {
+	return interopMode(id, nameLen, suites, viaNewConfig, false)
+}
+
+// foreign: the ECHConfig was not encoded by this library (another tool's output, handed to ConfigList for publication):
+// maximum_name_length chosen by the operator, an extension the library does not know. ConfigList publishes the config the
+// server holds - the HPKE info is computed over its bytes on both sides.
+func interopMode(id uint8, nameLen int, suites []ech.CipherSuite, viaNewConfig, foreign bool) string {
 	name := dnsNameOfLen(nameLen)
 	var cfg ech.Config
 	var privBytes []byte
-	if viaNewConfig {
+	if foreign {
+		kr := newKeyring(int64(id) + int64(nameLen))
+		var sl [][2]uint16
+		for _, c := range suites {
+			sl = append(sl, [2]uint16{c.KDF, c.AEAD})
+		}
+		b := encECHConfig(id, 0x20, kr.privs["k1"].PublicKey().Bytes(), sl, nameLen, []byte(name))
+		if nameLen%2 == 1 { // ... with a non-mandatory extension
+			body := b[4 : len(b)-2]
+			body = append(bytes.Clone(body), 0, 7, 0x12, 0x34, 0, 3, 1, 2, 3)
+			b = vec16(be16(nil, 0xfe0d), body)
+		}
+		cfg, privBytes = b, kr.privs["k1"].Bytes()
+	} else if viaNewConfig {
 		priv, c, err := ech.NewConfig(id, []byte(name))
 		if err != nil {
 			return "NewConfig: " + err.Error()
@@ -220,6 +240,9 @@ func interop(id uint8, nameLen int, suites []ech.CipherSuite, viaNewConfig bool)
 		cfg, privBytes = c, kr.privs["k1"].Bytes()
 	}
 	list, _ := ech.ConfigList([]ech.Config{cfg})
+	if foreign && !bytes.Contains(list, cfg) {
+		return fmt.Sprintf("ConfigList does not carry the ECHConfig it was given (a config encoded elsewhere, id %d, %d-byte name): the published config is not the one the server holds", id, nameLen)
+	}
 	p := interopPKI()
 	srvCert := p.leaf("inner.example", false, 0)
 	cEnd, sEnd := memPipe()
@@ -300,6 +323,11 @@ func TestEchConfigCases(t *testing.T) {
 					bad++
 					w.Write(Ev{"kind": "interop", "id": id, "namelen": nl, "suites": si, "diff": d})
 				}
+			}
+			nInter++
+			if d := interopMode(id, nl, suiteLists[(int(id)+nl)%len(suiteLists)], false, true); d != "" {
+				bad++
+				w.Write(Ev{"kind": "interop", "id": id, "namelen": nl, "suites": -2, "diff": d})
 			}
 			nInter++
 			if d := interop(id, nl, nil, true); d != "" {
